@@ -3,7 +3,10 @@ configuration of distributed_shampoo / sm3 / tearfree (or tearfree's second-orde
 transforms used directly) and project what happened to the vocabulary of spec/Layout.tla.
 
 job = {opt: "ds"|"sm3"|"tf"|"tfso", cfg: {...spec option record...}, tree: [[dims],...],
-       T: 1..3, exec: "jit"|"eager", seed, dtype: "float32"|"float64"}
+       T: 1..3, exec: "jit"|"eager"|"scan", seed, dtype: "float32"|"float64"}
+  exec = "eager": T eager updates; "jit": T calls of the jitted update; "scan": the T updates run as
+  ONE jitted lax.scan with the optimizer state as carry (the state must be a valid carry: same
+  treedef / shapes / dtypes in and out, enforced by jax at trace time).
 result = {
   outcome: "ok" | "explicit" | "internal",      # class of the first exception (if any)
   phase:   "construct" | "init" | "update" | "scan" | "sharded_fns" | "done",   # where it happened
@@ -434,14 +437,14 @@ def run(job, res):
     def init():
       with mesh:
         return fns.init_fn(params)
-    jupd = jax.jit(tx.update) if job["exec"] == "jit" else tx.update
+    jupd = jax.jit(tx.update) if job["exec"] != "eager" else tx.update
     def step(g, s):
       with mesh:
         return jupd(g, s, params)
     the_params, the_grads = params, grads
   else:
     init = lambda: tx.init(params)
-    jupd = jax.jit(tx.update) if job["exec"] == "jit" else tx.update
+    jupd = jax.jit(tx.update) if job["exec"] != "eager" else tx.update
     step = lambda g, s: jupd(g, s, params)
     the_params, the_grads = params, grads
 
@@ -484,7 +487,8 @@ def run(job, res):
   # ---- Update x T -----------------------------------------------------------------------
   t0 = time.time()
   state = state0
-  for t in range(T):
+  do_scan = job["exec"] == "scan"
+  for t in range(0 if do_scan else T):
     try:
       with _quiet():
         u, new_state = step(the_grads[t], state)
@@ -510,7 +514,7 @@ def run(job, res):
   res["secs"]["updates"] = round(time.time() - t0, 2)
   # ---- the state as a lax.scan carry --------------------------------------------------------
   t0 = time.time()
-  if job.get("scan", True) and not clauses:
+  if do_scan and not clauses:
     stacked = jax.tree.map(lambda *xs: jnp.stack(xs), *grads)
     try:
       with _quiet():
@@ -535,9 +539,19 @@ def run(job, res):
     except Exception as e:     # pylint: disable=broad-except
       raise Failure("scan", e)
     res["secs"]["scan"] = round(time.time() - t0, 2)
+    res["nupd"] = T
     if not _same_layout(sT, state0):
-      clauses.append({"clause": "scan_carry", "path": "",
-                      "detail": "final carry layout differs from the initial state"})
+      d = first_diff(sig(state0, strip), sig(sT, strip))
+      clauses.append({"clause": "scan_carry", "path": norm_path(d[0]) if d else "treedef",
+                      "detail": "final carry layout differs from the initial state" +
+                                (f" at {d[0]}: {_short(d[1])} -> {_short(d[2])}" if d else "")})
+    want = jax.tree.map(lambda x: jnp.stack([x] * T, axis=1 if mode == "pmap" else 0), the_params)
+    if not _same_layout(us, want):
+      d = first_diff(sig(want), sig(us))
+      clauses.append({"clause": "updates_layout", "path": norm_path(d[0]) if d else "treedef",
+                      "detail": "stacked updates of the scan: " +
+                                (f"at {d[0]}: params {_short(d[1])} vs updates {_short(d[2])}" if d
+                                 else "tree structure differs")})
   return res
 
 
